@@ -37,6 +37,12 @@ PROP = {  # commit subject fragment -> (property, key)
  "every slice expression evaluated": ("C01", "checked-binary-slice-result"),
  "ran property getters and __getattr__": ("C01", "checked-attribute-access-side-effects"),
  "startswith/endswith with a tuple": ("C01", "seeding-startswith-tuple"),
+ "stores to container elements on Python 3.12": ("C09", "subscript-stores-not-definitions-py312"),
+ "single-block loop on its own test": ("C09", "single-block-loop-control-dependence"),
+ "placeholder name '<lambda>'": ("C27", "lambda-visibility"),
+ "ignore_methods had no effect": ("C27", "ignore-methods-for-methods"),
+ "name mangling of private methods": ("C27", "name-mangling-guessed"),
+ "incompatible generators for primitive": ("C26", "random-provider-primitive-requests"),
  "KeyError for a loop in dead code": ("C06", "dead-code-cycle"),
  "beyond chromosome_length": ("C15", "insertion-exceeds-chromosome-length"),
  "statements binding a lambda": ("C24", "seed-parser-drops-lambda-statements"),
